@@ -359,8 +359,22 @@ def _inl(rule):
     return run
 
 
+def rule_one_shot(model):
+    r = RuleResult('C18.R8', 'no attribute of a template or compiled tag '
+                   '(objects shared by all renders and threads) holds a '
+                   'one-shot iterator: the first render to reach it would '
+                   'consume it, concurrent renders split its elements')
+    from .. import oneshot
+    from ..shared import shared_classes
+    sc = shared_classes(model)
+    return oneshot.fill_rule(
+        r, model, lambda fi, kind: fi.cls is not None and
+        id(fi.cls) in sc and kind in ('attribute', 'element'), 40,
+        'an attribute of a shared compiled object')
+
+
 INLINED_VIEW = False
-RULES_PLAIN = [rule_lock, rule_writers, rule_races, rule_registry, rule_reentry, rule_namespace, rule_scanner]
+RULES_PLAIN = [rule_lock, rule_writers, rule_races, rule_registry, rule_reentry, rule_namespace, rule_scanner, rule_one_shot]
 RULES = [_inl(r_) for r_ in RULES_PLAIN] if INLINED_VIEW else [
     (_inl(r_) if r_ is rule_namespace else r_) for r_ in RULES_PLAIN]
 EXPLANATION = (
